@@ -20,7 +20,7 @@ structure CertRun where
   out : List Sx := []
 
 def certStepLine (run : CertRun) (raw : Json) : CertRun :=
-  match decodeRequest cvtF64 raw with
+  match frameRequest cvtF64 raw with
   | none => { run with out := run.out ++ [.list [.atom "r", .atom "t"]] }
   | some req =>
     let fresh := "@cid" ++ toString run.starts
@@ -114,6 +114,13 @@ def certLine (line : String) : String :=
           Sx.list (.atom "r" :: .atom "f" :: e.2.2.map repSx))
       render (.list (.atom "obs" :: clients))
     | none => "(model-case-error)"
+  | some (.list [.atom "churn", n, rounds]) =>
+    -- every canonical sequence completes, whatever the interleaving (C19_canonical_succeeds)
+    match asNat n, asNat rounds with
+    | some n, some rounds =>
+      render (.list [.atom "obs", .list [.atom "seqs", .atom (toString (n * rounds))],
+                     .list [.atom "first-failure", .atom "-"]])
+    | _, _ => "(model-case-error)"
   | some (.list [.atom "many", n, _]) =>
     match asNat n with
     | some n => render (manyRun n)
@@ -144,10 +151,21 @@ def parseR : Sx → Option (Bool × List Reply)
   | .list (.atom "r" :: .atom "t" :: reps) => (reps.mapM parseRep).map fun l => (true, l)
   | _ => none
 
+/-- some request of the observation ran into its deadline / could not even connect -/
+partial def mentionsTimeout : Sx → Bool
+  | .atom a => a == "timeout" || a == "connect-failed"
+  | .list l => l.any mentionsTimeout
+
 def certPred (prop : String) (caseLine obsLine : String) : String :=
   if prop != "C19" then "fail unknown-property" else
+  if (parse obsLine).any mentionsTimeout then "fail request-not-answered" else
   match parse caseLine, parse obsLine with
   | some _, some (.list (.atom "panic" :: _)) => "fail panic"
+  | some (.list [.atom "churn", n, rounds]), some (.list [.atom "obs", .list [.atom "seqs", k], .list [.atom "first-failure", ff]]) =>
+    if asNat k == (do let a ← asNat n; let b ← asNat rounds; pure (a * b)) && (ff matches .atom "-") then "ok"
+    else match ff with
+      | .list [_, _, _, .atom "timeout"] => "fail request-not-answered"
+      | _ => "fail concurrent-canonical-client-failed"
   | some (.list (.atom "cert" :: qs)), some (.list (.atom "obs" :: rs)) =>
     match (dropSleeps qs).mapM parseQ, rs.mapM parseR with
     | some qs, some rs =>
